@@ -13,7 +13,9 @@
 //!       {"do":"release","c":id} | {"do":"release_all"}
 //!       {"do":"pause"} | {"do":"resume"} | {"do":"sleep","ms":n}
 //!       {"do":"quiet","ms":300}                     nothing may start during this window (record what did)
-//!       {"do":"poison","l":"a"}                     a connection whose service call panics (worker thread dies)
+//!       {"do":"poison","l":"a","after_ms":n}        a connection whose service call panics (worker thread dies); the step
+//!                                                   returns n ms after the call started to panic
+//!   "slow_drop_ms": the destructor of listener a's service instances takes that long
 //!       {"do":"stop","graceful":bool}
 
 use std::{
@@ -64,6 +66,21 @@ struct Shared {
     poison_next: AtomicBool,
 }
 
+/// captured by a service instance: its destructor takes `ms` milliseconds (a service that has something to tear down)
+struct SlowDrop {
+    ms: u64,
+    log: Log,
+}
+impl Drop for SlowDrop {
+    fn drop(&mut self) {
+        if self.ms > 0 {
+            self.log.emit(json!({"e": "ServiceDropStart", "thread": format!("{:?}", thread::current().id())}));
+            thread::sleep(Duration::from_millis(self.ms));
+            self.log.emit(json!({"e": "ServiceDropEnd"}));
+        }
+    }
+}
+
 async fn serve<S: AsyncReadExt + Unpin>(mut stream: S, tag: &'static str, sh: Arc<Shared>) -> Result<(), ()> {
     let mut b = [0u8; 1];
     if stream.read_exact(&mut b).await.is_err() {
@@ -88,6 +105,7 @@ pub fn run_scenario(sc: &Value, dir: &str) -> Vec<Value> {
     let limit = sc["limit"].as_u64().unwrap_or(1) as usize;
     let uds = sc["uds"].as_bool().unwrap_or(false);
     let multi = sc["multi"].as_bool().unwrap_or(false);
+    let slow_drop_ms = sc["slow_drop_ms"].as_u64().unwrap_or(0);
     let sh = Arc::new(Shared {
         log: log.clone(),
         release: (0..256).map(|_| AtomicBool::new(false)).collect(),
@@ -124,7 +142,9 @@ pub fn run_scenario(sc: &Value, dir: &str) -> Vec<Value> {
                     let s = sa.clone();
                     s.factories.fetch_add(1, Ordering::SeqCst);
                     s.log.emit(json!({"e": "FactoryNew", "tag": "a", "thread": format!("{:?}", thread::current().id())}));
+                    let slow = std::rc::Rc::new(SlowDrop { ms: slow_drop_ms, log: s.log.clone() });
                     fn_service(move |stream: TcpStream| {
+                        let _keep = &slow; // the service instance owns it: dropped with the service
                         if s.poison_next.swap(false, Ordering::SeqCst) {
                             s.log.emit(json!({"e": "Poisoned", "tag": "a", "thread": format!("{:?}", thread::current().id())}));
                             panic!("poisoned call: the worker future dies");
@@ -221,6 +241,12 @@ pub fn run_scenario(sc: &Value, dir: &str) -> Vec<Value> {
                             log.emit(json!({"e": "ClientConnectFailed", "c": id, "l": st["l"], "err": e.to_string()}));
                         }
                     }
+                }
+                if d == "poison" {
+                    // the call is about to panic: wait until it has started to (then the worker future is being torn down)
+                    let before = st["seen"].as_u64().unwrap_or(0) as usize;
+                    let _ = wait_until(Duration::from_secs(2), || count(&log, "Poisoned") > before);
+                    thread::sleep(Duration::from_millis(st["after_ms"].as_u64().unwrap_or(0)));
                 }
                 res["ids"] = json!(ids);
                 res["ok"] = json!(errs.is_empty());
